@@ -1,14 +1,16 @@
 import WM.Model.Compile
 import WM.Model.MatcherTree
 /-!
-The cursor tree that `Query.matcher(subsearcher, context)` builds for the boolean constructors, in
-the vocabulary of the matcher family (`WM.Matcher.Any`, constructors `mk*` of
-`WM/Model/MatcherTree.lean`), and the theorem that its remaining result list (`den`) is the list
-`WM.Compile.compile` denotes.
+The cursor tree that `Query.matcher(subsearcher, context)` builds — for term / null / `Every` leaves,
+the boolean constructors, the multi-term queries (Prefix, Wildcard, TermRange, FuzzyTerm, Regex: the
+expansion against the segment lexicon, 0 / 1 / many terms, constant score) and both strategies of
+`Or` (tree of unions; scored `ArrayUnionMatcher` over sub-matchers of one class) — in the vocabulary
+of the matcher family (`WM.Matcher.Any`, constructors `mk*` of `WM/Model/MatcherTree.lean`), and the
+theorem that its remaining result list (`den`) is the list `WM.Compile.compile` denotes.
 -/
 namespace WM.Compile
 open WM.Search
-open WM.Matcher (Any mkInter mkUnion mkDisMax mkAndNot mkAndMaybe mkRequire mkInverse mkConst mkBoost allIds
+open WM.Matcher (Any mkInter mkUnion mkDisMax mkAndNot mkAndMaybe mkRequire mkInverse mkConst mkBoost mkAUnion allIds
   ListM)
 
 /-- results of matcher operations (`Except` over the modelled Python exceptions) -/
@@ -36,14 +38,69 @@ def compoundM (many : List Any → MR Any) (b : Rat) : List Any → MR Any
   | [m] => .ok (boostM b m)
   | ms => many ms
 
+/-- the sub-matchers as a list of one class `c` (the matcher family models `ArrayUnionMatcher` over
+    sub-matchers of one class); `none` if some sub-matcher is of another class -/
+def castTo (c : WM.Matcher.Shape) : List Any → Option (List (WM.Matcher.St c))
+  | [] => some []
+  | m :: ms => if h : m.1 = c then (castTo c ms).map (fun r => (h ▸ m.2) :: r) else none
+
+/-- `Or._matcher` over two or more built clause matchers: `DefaultOr._matcher` (tree of unions, then
+    the boost wrapper) or `PreloadedOr._matcher` (`ArrayUnionMatcher(ms, doc_count_all, boost, scored)`,
+    `partsize` 2048).  The unscored array union (`scored=False`: every cell is set to 1) and an array
+    union over sub-matchers of different classes have no node in the matcher family's tree. -/
+def orManyM (ctx : Ctx) (dc : Nat) (sh : Compile.Shape) (ms : List Any) (b : Rat) : MR Any :=
+  if ms.length < 1024 && (ctx.nc || ms.length == 2 || decide (5000 < dc)) then do
+    let m ← foldShapeM (fun a b => pure (mkUnion a b)) ms sh
+    pure (boostM b m)
+  else if ctx.scored then
+    match ms with
+    | [] => .error .notImpl
+    | m0 :: _ =>
+      match castTo m0.1 ms with
+      | some subs => mkAUnion m0.1 subs dc b 2048
+      | none => .error .notImpl
+  else .error .notImpl
+
+/-- the constant-score scheme of `ConstantScoreQuery.matcher` and of a `constantscore` multi-term
+    query: `ConstantScoreWrapperMatcher(m, c)` when the collector needs the current match, otherwise
+    `ListMatcher(array("I", m.all_ids()), all_weights=c)` -/
+def csM (ctx : Ctx) (c : Rat) (m : Any) : MR Any :=
+  if ctx.nc then pure (mkConst m c)
+  else do
+    let ids ← allIds m
+    pure (listOf (ids.map (fun i => (⟨i, wOf c⟩ : Hit))))
+
+/-- `Every(fieldname).matcher`: `ListMatcher(sorted(set of the ids of every term of the field), all_weights=boost)` -/
+def everyFieldM (ls : LeafScore) (s : Segment) (f : String) (b : Rat) : Any :=
+  listOf (constL (wOf b) (unionAll ((lexicon s f).map (postings ls s f))))
+
 mutual
-/-- `q.matcher(subsearcher, context)` as a cursor tree, for term / null leaves and the boolean
-    constructors.  `.error .notImpl` marks what the matcher family's tree vocabulary has no node
-    for (multi-term and positional leaves, and the array union an `Or` of three or more clauses
-    turns into when the context does not need the current match). -/
+/-- `q.matcher(subsearcher, context)` as a cursor tree.  `.error .notImpl` marks what the matcher
+    family's tree vocabulary has no node for: positional leaves (Phrase), numeric ranges (their
+    decomposition into tier terms is C13's), the unscored array union and an array union over
+    sub-matchers of different classes. -/
 def build (ls : LeafScore) (so : ShapeOracle) (s : Segment) : Ctx → Query → MR Any
   | _, .term f t b => .ok (boostM b (listOf (postings ls s f t)))
   | _, .null => .ok Any.null
+  -- Every.matcher: ListMatcher(reader.all_doc_ids(), all_weights=boost) resp. over the field's documents
+  | _, .every none b => .ok (listOf (s.live.map (fun i => (⟨i, wOf b⟩ : Hit))))
+  | _, .every (some f) b => .ok (everyFieldM ls s f b)
+  -- MultiTerm.matcher (Prefix("") / Wildcard("*") / Regex(".*") are `Every(fieldname)`)
+  | ctx, .multi f p b cs =>
+    if isAllPred p then .ok (everyFieldM ls s f b)
+    else
+      let ts := (lexicon s f).filter p.test
+      match ts with
+      | [] => .ok Any.null
+      | [t] =>
+        -- `qs[0].matcher(searcher, context)`, boosted unless constant-score
+        let m := listOf (postings ls s f t)
+        if cs then csM ctx b m else .ok (boostM b m)
+      | _ => do
+        -- `Or([Term(f, t) ...], boost).matcher(searcher, context)`, `weighting=None` if constant-score
+        let m ← orManyM (if cs then ⟨ctx.nc, false⟩ else ctx) s.size
+                  (so (ts.map (fun t => Query.term f t 1))) (ts.map (fun t => listOf (postings ls s f t))) b
+        if cs then csM ctx b m else pure m
   | ctx, .and qs b => do
     let ms ← buildList ls so s ctx qs
     compoundM (fun ms => do
@@ -51,11 +108,7 @@ def build (ls : LeafScore) (so : ShapeOracle) (s : Segment) : Ctx → Query → 
       pure (boostM b m)) b ms
   | ctx, .or qs b => do
     let ms ← buildList ls so s ctx qs
-    compoundM (fun ms =>
-      if ms.length < 1024 && (ctx.nc || ms.length == 2 || decide (5000 < s.size)) then do
-        let m ← foldShapeM (fun a b => pure (mkUnion a b)) ms (so qs)
-        pure (boostM b m)
-      else .error .notImpl) b ms
+    compoundM (fun ms => orManyM ctx s.size (so qs) ms b) b ms
   | ctx, .dismax qs b => do
     let ms ← buildList ls so s ctx qs
     compoundM (fun ms => do
@@ -78,11 +131,7 @@ def build (ls : LeafScore) (so : ShapeOracle) (s : Segment) : Ctx → Query → 
     mkRequire x y
   | ctx, .constScore q sc => do
     let c ← build ls so s ctx q
-    if ctx.nc then pure (mkConst c sc)
-    else do
-      -- `ListMatcher(array("I", m.all_ids()), all_weights=score)`
-      let ids ← allIds c
-      pure (listOf (ids.map (fun i => (⟨i, wOf sc⟩ : Hit))))
+    csM ctx sc c
   | _, _ => .error .notImpl
 def buildList (ls : LeafScore) (so : ShapeOracle) (s : Segment) : Ctx → List Query → MR (List Any)
   | _, [] => .ok []
@@ -92,8 +141,43 @@ def buildList (ls : LeafScore) (so : ShapeOracle) (s : Segment) : Ctx → List Q
     pure (m :: ms)
 end
 
+/-- when `Or._matcher` over the clauses `qs` yields a tree the cursor model has: two clauses, or a
+    tree of unions (the context needs the current match, or more than 5000 documents), or a *scored*
+    array union with a positive boost over plain term matchers (`Term(f, t)`, boost 1 — what a
+    multi-term query expands to) whose leaf scores are positive (the class tells documents from empty
+    cells by `a[i] > 0`). -/
+def UnionOK (ls : LeafScore) (s : Segment) (ctx : Ctx) (qs : List Query) (b : Rat) : Prop :=
+  qs.length ≤ 2 ∨ (qs.length < 1024 ∧ (ctx.nc = true ∨ 5000 < s.size)) ∨
+  (ctx.scored = true ∧ 0 < b ∧
+    ∀ q ∈ qs, ∃ f t, q = Query.term f t 1 ∧ ∀ e ∈ postings ls s f t, 0 < e.score)
+
 mutual
 /-- the queries whose matcher tree consists of nodes the cursor model has -/
+def CursorOK (ls : LeafScore) (s : Segment) : Ctx → Query → Prop
+  | _, .term _ _ _ => True
+  | _, .null => True
+  | _, .every _ _ => True
+  | ctx, .multi f p b cs =>
+    isAllPred p = true ∨
+      UnionOK ls s (if cs then ⟨ctx.nc, false⟩ else ctx)
+        (((lexicon s f).filter p.test).map (fun t => Query.term f t 1)) b
+  | ctx, .and qs _ => CursorOKL ls s ctx qs
+  | ctx, .or qs b => CursorOKL ls s ctx qs ∧ UnionOK ls s ctx qs b
+  | ctx, .dismax qs _ => CursorOKL ls s ctx qs
+  | _, .not q => CursorOK ls s boolCtx q
+  | ctx, .andNot a b => CursorOK ls s ctx a ∧ CursorOK ls s boolCtx b
+  | ctx, .andMaybe a b => CursorOK ls s ctx a ∧ CursorOK ls s ctx b
+  | ctx, .require a b => CursorOK ls s ctx a ∧ CursorOK ls s boolCtx b
+  | ctx, .constScore q _ => CursorOK ls s ctx q
+  | _, _ => False
+def CursorOKL (ls : LeafScore) (s : Segment) : Ctx → List Query → Prop
+  | _, [] => True
+  | ctx, q :: qs => CursorOK ls s ctx q ∧ CursorOKL ls s ctx qs
+end
+
+mutual
+/-- round 2's fragment (term / null leaves, boolean constructors, no array union), kept for
+    reference: `treeOnly_cursorOK` shows it is part of `CursorOK` -/
 def TreeOnly (s : Segment) : Ctx → Query → Prop
   | _, .term _ _ _ => True
   | _, .null => True
